@@ -21,7 +21,7 @@ CLAIMS = {
     'C02': _c('Whole-package effect analysis from parse(): no write to module/class/instance state during evaluation (allow-list: '
               'emitter bookkeeping, traceback reset), no mutation of host-aliased values (taint through parameters, p[i], '
               'iteration, shallow copies), debug branches only print, shared exception singletons never keep frames, no '
-              'unbounded memo, a private token stream per parse. Structural reason why outcome cannot depend on history; third-party retention not decided.',
+              'unbounded memo, a private token stream per parse, per-parser tables never start out as an object shared between parsers. Structural reason why outcome cannot depend on history; third-party retention not decided.',
               'effect analysis + host-alias taint + typestate on exception singletons over the resolved call graph',
               'DESIGN.md 5 C02'),
     'C03': _c('Structural isolation rules: every yacc parse names a private cloned lexer, all instance state is born in __init__ '
@@ -31,7 +31,7 @@ CLAIMS = {
               'DESIGN.md 5 C03'),
     'C04': _c('The grammar as data: precedence table vs the stated order, the LALR automaton rebuilt from ast-extracted grammar '
               'and every (completed-operator-item, lookahead) cell of its action table checked against the oracle, production '
-              'shapes, operand roles decided by abstractly running each reduce action on symbolic operands, private token stream per parse, lexeme/token/operator agreement, token order, generated-table agreement with the '
+              'shapes, operand roles decided by abstractly running each reduce action on symbolic operands, private token stream per parse, comparison nodes evaluate by the defined order (C07 kernel), lexeme/token/operator agreement, token order, generated-table agreement with the '
               'checked-in parsetab; thorough: LR driver on all token strings to depth 3 vs precedence climbing. Exact arithmetic of the tree value not decided.',
               'LALR table inspection (ply as table generator on extracted data) + abstract interpretation of reduce actions + regex AST + literal-table agreement',
               'DESIGN.md 5 C04'),
@@ -41,7 +41,7 @@ CLAIMS = {
               'regex-AST queries + list-shape abstract interpretation of reduce actions + grammar family isomorphism',
               'DESIGN.md 5 C05'),
     'C06': _c('Conversion table exhaustive and consistent (36 cells: converter matches operand type, + and * symmetric), text/zero-divisor '
-              'exits, array dunder table, & by type tag, pre-1900 guard, the table\'s date converters as exact piecewise-affine serial maps. Decides table structure, not float arithmetic.',
+              'exits, array dunder table (text scalars broadcast like any scalar), & by type tag, pre-1900 guard, the table\'s date converters as exact piecewise-affine serial maps. Decides table structure, not float arithmetic.',
               'evaluated-table agreement + type-tag abstract interpretation + piecewise-affine converters',
               'DESIGN.md 5 C06'),
     'C07': _c('Comparator kernel computed for all ordered type-tag pairs (int,float,bool,str,none,datetime)^2 x (lt,gt,eq) by abstract '
@@ -54,10 +54,10 @@ CLAIMS = {
               'type-tag + origin abstract interpretation, path rules on the call boundary',
               'DESIGN.md 5 C08'),
     'C09': _c('No SyntaxError can leave a reduce action (swallowed by ply), lookup order instance>registry>#NAME?, variable sentinel, '
-              'documented names subset of registry, predefined names, registered names lexable as FUNCTION tokens, name tokens handed on verbatim, no state on the resolution path (actions, callbacks, parse driver).',
+              'documented names subset of registry, predefined names, registered names lexable as FUNCTION tokens, name tokens handed on verbatim, the registry getter answers only the exact spelling (near-miss names interpreted), no state on the resolution path (actions, callbacks, parse driver).',
               'exception-class propagation over the call graph + path dominance + table/doc agreement + regex AST',
               'DESIGN.md 5 C09'),
-    'C10': _c('Exactly one emit per reference callback on every normal path, one callback per reduction, cell/range payload origin, '
+    'C10': _c('Exactly one emit per reference callback on every normal path, one callback per reduction, every pair of label kinds forms a range production, cell/range payload origin, '
               'setter keeps falsy values, default blank, private token stream per parse, exact label/index converters.',
               'path enumeration (exactly-once) + origin tracking + type-tag evaluation of setter closures',
               'DESIGN.md 5 C10'),
@@ -79,7 +79,7 @@ CLAIMS = {
               'finite-quotient evaluation + table agreement + guard dominance',
               'DESIGN.md 5 C14'),
     'C15': _c('Structural clauses only: no negative-zero slice, negative counts rejected, SUBSTITUTE unchanged-exit independent of the '
-              'replacement, joins over all flattened items in order. String-value algebra (idempotence etc.) NOT decided.',
+              'replacement, a find() position is tested for not-found before it bounds a slice, joins over all flattened items in order. String-value algebra (idempotence etc.) NOT decided.',
               'guard dominance with interval facts + path-condition dependence + dataflow roles',
               'DESIGN.md 5 C15'),
     'C16': _c('Structural clauses only: delegation table name->math function, coercion+error guard dominates every use (sibling rule), '
@@ -97,14 +97,14 @@ CLAIMS = {
               'guard dominance with integer interval facts + path rules',
               'DESIGN.md 5 C18'),
     'C19': _c('Label regex language equals the label language (DFA over a 6-class alphabet with Python $ semantics), capture-group roles, '
-              'alphabet constant, exact integer arithmetic in the column converters, row converters affine inverses, recomposition order, loop termination. Column converters mutually '
+              'alphabet constant, exact integer arithmetic in the column converters, digit and carry of one step from the same dividend, row converters affine inverses, recomposition order, loop termination. Column converters mutually '
               'inverse (bijective base 26) NOT decided.',
               'regex-AST to DFA language equality + affine forms + dataflow roles',
               'DESIGN.md 5 C19'),
     'C20': _c('Structural necessary conditions over all histories: delivery over an order-preserving snapshot to every listener with '
               '(*args, **ctx); on() appends unconditionally; once-wrapper unsubscribes before calling, is found by off(), registered via '
               'on(); off() filter equals the specification on all 8 atom valuations and keeps order; off(name) drops the key; storage keyed '
-              'by name only. Full trace semantics of arbitrary interleavings NOT decided (model-checking family).',
+              'by name only; no list resized inside a loop over itself. Full trace semantics of arbitrary interleavings NOT decided (model-checking family).',
               'ast pattern rules + path enumeration (ordering/exactly-once) + boolean truth-table evaluation of the filter',
               'DESIGN.md 5 C20'),
 }
